@@ -1,4 +1,5 @@
 import Model.Linear
+import Model.Deliver
 import Driver.Common
 /-! Protocol of the system-level checks (C01, C07, …): the world (module scripts) travels as the text the
 Go harness also puts into the package's binary (harness/sys/spec.go Encode). -/
@@ -73,6 +74,15 @@ def step (line : String) : String :=
   | "LIN" :: md :: world :: output :: start :: stop :: _ =>
     let (l, failed) := linearSpec (parseWorld world) (nat! md) (bytesOf output) (nat! start) (nat! stop)
     showStream l ++ (match failed with | some b => s!" fail@{b}" | none => "")
+  | "DLV" :: md :: world :: output :: start :: stop :: handoff :: rest =>
+    -- delivered data messages of the request: `num` or `num e` (empty payload) plus the payloads' digest
+    let (l, failed) := linearSpec (parseWorld world) (nat! md) (bytesOf output) (nat! start) (nat! stop)
+    let msgs := deliver l ⟨nat! start, nat! stop, nat! handoff⟩
+    -- a failing production request delivers some prefix of this (whole segments only): the harness checks
+    -- the prefix property on the real messages, the correspondence compares the failing block
+    if failed.isSome && rest.contains "prod=true" then (match failed with | some b => s!"fail@{b}" | none => "") else
+    " ".intercalate (msgs.map fun m => if m.payload.isEmpty then s!"{m.num}e" else s!"{m.num}={hex (normTag m.payload)}") ++
+      (match failed with | some b => s!" fail@{b}" | none => "")
   | _ => "bad-op"
 
 end SysProto
